@@ -344,7 +344,7 @@ pub struct MachineParams {
     pub min_states: usize,
     pub max_states: usize,
     pub dist: DistProfile,
-    /// allow zero timeouts/durations in the Light profile
+    /// allow zero durations in the Light profile (zero timeouts are always generated)
     pub light_zero: bool,
     pub p_action: f64,
     /// weights of [Cancel, SendPadding, BlockOutgoing, UpdateTimer]
@@ -416,7 +416,8 @@ fn action_spec(p: &MachineParams) -> BoxedStrategy<ActionSpec> {
     let lz = p.light_zero;
     let d = move |u: DistUse| -> BoxedStrategy<DistSpec> {
         if prof == DistProfile::Light {
-            light_dist(u, lz)
+            // zero timeouts are always generated; zero durations only when asked for
+            light_dist(u, lz || u == DistUse::Timeout)
         } else {
             dist(prof, u)
         }
